@@ -387,6 +387,9 @@ def grammar_boundaries(m, rng):
         # '$' is allowed INSIDE a $7$ salt: the salt ends at the LAST '$' (trailing '$', a hash part, several '$')
         out += ["$7$4/..../....ab$cd$", "$7$4/..../....ab$cd$ef", "$7$4/..../....a$$b$", "$7$4/..../....$$", "$7$4/..../....ab$cd$" + S(43),
                 "$7$4/..../....So$dium$Chloride$"]
+        # salts so long that the RESULT comes close to the 384-byte output field (a result longer than 339 characters must
+        # still be accepted back as a setting)
+        out += ["$7$4/..../...." + S(n) for n in (280, 281, 282, 300, 324, 325, 326)]
         out += ["$7$4/..../...." + S(n) for n in (0, 1, 2, 43, 64, 100)] + ["$7$4/..../...." + S(8) + "$", "$7$4/..../...." + S(8) + "$junk", "$7$4/..../....$",
                 "$7$4/..../....$" + S(43), "$7$4/..../...", "$7$4/....", "$7$4", "$7$", "$7", "$7$4/..../...-" + S(4), "$7$4/..../...." + S(3) + "-" + S(3),
                 "$7$4/..-./...." + S(4)]
